@@ -43,6 +43,7 @@ S8 == [id |-> "iface-last-header", iface |-> TRUE, header |-> TRUE,
        cols |-> <<"dip", "sip", "proto", "dport", "time", "bs", "br", "ps", "pr", "iface">>]
 GenSchemas2 == {S3, S4}
 GenSchemas4 == {S1, S2, S3, S4}
+GenSchemas4b == {S5, S6, S7, S8}
 GenSchemas8 == {S1, S2, S3, S4, S5, S6, S7, S8}
 
 AllBad == {"badsip", "baddip", "mixedfam", "badport", "bigport", "badproto", "badcount", "negcount",
